@@ -20,6 +20,14 @@ def _world(test, rule, q, th, level_q=40, level_t=2000, extra_assume=()):
     }
 
 
+def _with_fuzz(cfg, target, fuzztime):
+    """thorough tier: additionally a coverage-guided campaign (go native fuzzing driving the same rapid property
+    through rapid.MakeFuzz); a wall-clock budget that expires means 'nothing found', never a violation"""
+    cfg["thorough"] = cfg["thorough"] + [{"kind": "fuzz", "test": target, "fuzztime": fuzztime}]
+    cfg["rule"] += " | thorough adds a coverage-guided campaign (%s, rapid.MakeFuzz over the same property, %s)" % (target, fuzztime)
+    return cfg
+
+
 def _rules():
     # the rule texts live next to the generators (harness/specs_test.go: worldSpec.Rule); mirrored here for the evidence file
     import re
@@ -107,10 +115,11 @@ CHECKS = {
     },
     "C18": {
         "level": "exploration",
-        "rule": "programs of 1-30 steps over {Set, Delete (incl. empty key / nil value probes), Get+Has, batch (Set/Delete..., Write|WriteSync|Close, then reuse attempts), forward/reverse iterators with bounds nil / stored key / extension / prefix / random, fully or partially consumed and closed inside the step} with keys over the alphabet {00,01,'a',FE,FF} (length 0-4), executed on MemDB, PrefixDB(MemDB), PrefixDB(PrefixDB(MemDB)) (and GoLevelDB, PrefixDB(GoLevelDB) in the LevelDB slice) with prefixes incl. FF, FF FF, 'a' FF, FE FF FF; every parent store is pre-seeded with keys outside the namespace (the prefix itself, prefix minus last byte, incremented prefix and its extensions, just-below keys, FF runs). Oracle: one sorted-map model; identical observable results on all backends; after every step each view dumps exactly the model and the outside keys of each parent are unchanged. non-trivial = an iterator bound equal to a stored key, or a range that splits the key set",
+        "rule": "programs of 1-30 steps over {Set, Delete (incl. empty key / nil value probes), Get+Has, batch (Set/Delete..., Write|WriteSync|Close, then reuse attempts), forward/reverse iterators with bounds nil / stored key / extension / prefix / random, fully or partially consumed and closed inside the step} with keys over the alphabet {00,01,'a',FE,FF} (length 0-4), executed on MemDB, PrefixDB(MemDB), PrefixDB(PrefixDB(MemDB)) (and GoLevelDB, PrefixDB(GoLevelDB) in the LevelDB slice) with prefixes incl. FF, FF FF, 'a' FF, FE FF FF; every parent store is pre-seeded with keys outside the namespace (the prefix itself, prefix minus last byte, incremented prefix and its extensions, just-below keys, FF runs). Oracle: one sorted-map model; identical observable results on all backends; after every step each view dumps exactly the model and the outside keys of each parent are unchanged. non-trivial = an iterator bound equal to a stored key, or a range that splits the key set | thorough adds a coverage-guided campaign (FuzzC18Programs: go native fuzzing drives the same generator and oracle through rapid.MakeFuzz, 90 s)",
         "assumptions": ["rapid v1.3.0", "Go toolchain", "writes under an open iterator are excluded (MemDB iterators hold the RWMutex; caller error)", "empty prefix excluded (cpIncr documents len>0)"],
         "quick": [{"test": "TestC18", "checks": 1500, "shards": 6}, {"test": "TestC18", "checks": 150, "shards": 2, "env": {"VERIF_LEVEL": "1"}}],
-        "thorough": [{"test": "TestC18", "checks": 60000, "shards": 12}, {"test": "TestC18", "checks": 5000, "shards": 4, "env": {"VERIF_LEVEL": "1"}}],
+        "thorough": [{"test": "TestC18", "checks": 60000, "shards": 12}, {"test": "TestC18", "checks": 5000, "shards": 4, "env": {"VERIF_LEVEL": "1"}},
+                     {"kind": "fuzz", "test": "FuzzC18Programs", "fuzztime": "90s"}],
     },
     "C12": _world("TestC12", _R["C12"], 700, 25000),
     "C13": {
